@@ -3,7 +3,7 @@
 
 def _c19_case(c):
     p = c.split(" ")
-    if p[0] in ("M", "T", "U", "L"):
+    if p[0] in ("M", "T", "U", "L", "J", "B"):
         return {"op": p[0], "hex": p[1]}
     if p[0] == "K":
         return {"op": "K", "spec": unhex(p[-1]).encode("latin-1").decode("utf-8")}
@@ -31,9 +31,25 @@ def _vm_ann(t):
     return "[" + "; ".join(out) + "]"
 
 
+def _vm_strs(xs):
+    return "(@nil str)" if not xs else "[" + "; ".join(_vm_str(x) for x in xs) + "]"
+
+
+def _vm_extra(t):
+    u, d, p = t.split("~")
+    urls = _vm_strs([] if u == "_" else u.split("."))
+    data = "(@nil N)" if d == "_" else _vm_str(d)
+    if p == "_":
+        plat = "(@None platform)"
+    else:
+        a, o, v, f, r = p.split(".")
+        plat = "(Some (mkPlatform %s %s %s %s %s))" % (_vm_str(a), _vm_str(o), _vm_str(v), _vm_strs([] if f == "_" else f.split("+")), _vm_str(r))
+    return "(mkExtra %s %s %s)" % (urls, data, plat)
+
+
 def _vm_desc(t):
     _, mt, dg, sz, ann, at, ex = t.split(":")
-    return "(mkDesc %s %s (%s)%%Z %s %s %s)" % (_vm_str(mt), _vm_str(dg), sz, _vm_ann(ann), _vm_str(at), _vm_str(ex))
+    return "(mkDesc %s %s (%s)%%Z %s %s %s)" % (_vm_str(mt), _vm_str(dg), sz, _vm_ann(ann), _vm_str(at), _vm_extra(ex))
 
 
 def _vm_odesc(t):
@@ -79,7 +95,7 @@ def _vm_events(t):
     return "[" + "; ".join(out) + "]"
 
 
-_VM_PRELUDE = """From Oras Require Import Base.Prelude Base.Regex Generated.GC19 Model.Pack.
+_VM_PRELUDE = """From Oras Require Import Base.Prelude Base.Regex Generated.GC19 Model.Pack Model.PackEnc.
 Fixpoint vm_ltb (x y : str) : bool :=
   match x, y with
   | [], [] => false
@@ -104,16 +120,16 @@ Definition vm_ev (e : event) : vev :=
 Inductive vres :=
 | VErr (e : err)
 | VOk (mt at_ : str) (ann : list kv) (k : mkind) (cfg : option desc) (layers : option (list desc))
-      (subj : option desc) (mat : str) (mann : list kv).
+      (subj : option desc) (mat : str) (mann : list kv) (bytes : str).
 Definition vm_view (p : state * result) : vres * list vev :=
   (match snd p with
    | Err e => VErr e
    | Ok d m0 => let m := san_manifest m0 in
                VOk (d_mt d) (d_at d) (vm_sort (d_ann d)) (m_kind m) (option_map vm_desc (m_config m))
                    (option_map (map vm_desc) (m_layers m)) (option_map vm_desc (m_subject m)) (m_at m)
-                   (vm_sort (m_ann m))
+                   (vm_sort (m_ann m)) (json_manifest m0)
    end, map vm_ev (s_events (fst p))).
-Definition vm_marshal (_ : manifest) : str := [].
+Definition vm_marshal : manifest -> str := json_manifest.
 Definition vm_h (s : str) : str := if str_eqb s empty_json then empty_json_digest else [63].
 Definition vm_now : str := [60; 78; 79; 87; 62].
 """
@@ -124,6 +140,10 @@ def _vm_goal(case, out):
     o = out.split(" ")
     if p[0] == "M":
         return "valid_media_type %s = %s" % (_vm_str(p[1]), "true" if o[0] == "1" else "false")
+    if p[0] == "J":
+        return "json_string %s = %s" % (_vm_str(p[1]), _vm_str(o[0]))
+    if p[0] == "B":
+        return "base64 %s = %s" % (_vm_str(p[1]), _vm_str(o[0]))
     if p[0] == "L":
         return "rfc3339_ok_prefix %s = %s" % (_vm_str(p[1]), "true" if o[0] == "1" else "false")
     if p[0] == "U":
@@ -144,15 +164,15 @@ def _vm_goal(case, out):
         return "vm_view %s = (VErr %s, %s)" % (call, e, _vm_events(o[3]))
     mt, at, ann = o[1].split(":")
     f = dict(t.split("=", 1) for t in o[2:8])
-    res = "(VOk %s %s %s %s %s %s %s %s %s)" % (_vm_str(mt), _vm_str(at), _vm_ann(ann), {"I": "KImage", "A": "KArtifact"}[f["kind"]],
+    res = "(VOk %s %s %s %s %s %s %s %s %s %s)" % (_vm_str(mt), _vm_str(at), _vm_ann(ann), {"I": "KImage", "A": "KArtifact"}[f["kind"]],
                                              _vm_odesc(f["cfg"]), _vm_list(f["layers"]), _vm_odesc(f["subj"]), _vm_str(f["at"]),
-                                             _vm_ann(f["ann"]))
+                                             _vm_ann(f["ann"]), _vm_str(o[11]))
     return "vm_view %s = (%s, %s)" % (call, res, _vm_events(o[9]))
 
 
 def _c19_vm_sample(d, tier, coq, build):
     import os, subprocess, collections
-    quota = {"K": 250, "M": 120, "T": 120, "U": 60, "L": 60} if tier == "thorough" else {"K": 30, "M": 15, "T": 15, "U": 10, "L": 10}
+    quota = {"K": 250, "M": 120, "T": 120, "U": 60, "L": 60, "J": 60, "B": 40} if tier == "thorough" else {"K": 30, "M": 15, "T": 15, "U": 10, "L": 10, "J": 10, "B": 5}
     outs = {}
     with open(os.path.join(d, "model.txt")) as f:
         for l in f:
@@ -200,7 +220,7 @@ def _c19_vm_sample(d, tier, coq, build):
 CONFIG = {
     "properties_file": "Properties/C19.v",
     "proof_files": ["Base/Prelude.v", "Base/Regex.v", "Base/StrCheck.v", "Proofs/Pack.v", "Proofs/PackTime.v", "Proofs/PackJson.v", "Proofs/PackTie.v"],
-    "model_files": ["Generated/GC19.v", "Model/Pack.v"],
+    "model_files": ["Generated/GC19.v", "Model/Pack.v", "Model/PackEnc.v"],
     "extract": "XC19.v",
     "ml_main": "c19_main.ml",
     "harness": "c19",
